@@ -262,7 +262,11 @@ func (e *Engine) eval(env *Env, x Expr) (TV, error) {
 			name := fmt.Sprintf("q_%s_d%d", qv.Name, s.quant)
 			decls = append(decls, fmt.Sprintf("(%s %s)", name, sort))
 			t := Term{name, sort}
-			ce.vars[qv.Name] = s.fromTerm(t, ty)
+			if ty != nil {
+				ce.vars[qv.Name] = s.fromTerm(t, ty)
+			} else {
+				ce.vars[qv.Name] = t // spec-level sort (Int / mathint / array): no Go type, no range guard
+			}
 			ce.vtypes[qv.Name] = ty
 			if ty != nil {
 				if f := e.tm.TypeFacts(t, ty); f.S != "true" {
@@ -280,6 +284,22 @@ func (e *Engine) eval(env *Env, x Expr) (TV, error) {
 			body = Implies(And(guards...), body)
 		} else {
 			body = And(append(guards, body)...)
+		}
+		if len(n.Pats) > 0 {
+			// explicit instantiation patterns
+			var ps []string
+			for _, group := range n.Pats {
+				var ts []string
+				for _, pe := range group {
+					pt, err := e.evalTerm(ce, pe)
+					if err != nil {
+						return TV{}, fmt.Errorf("quantifier pattern: %v", err)
+					}
+					ts = append(ts, pt.S)
+				}
+				ps = append(ps, ":pattern ("+strings.Join(ts, " ")+")")
+			}
+			return TV{Term{fmt.Sprintf("(%s (%s) (! %s %s))", q, strings.Join(decls, " "), body.S, strings.Join(ps, " ")), SBool}, types.Typ[types.Bool]}, nil
 		}
 		return TV{Term{fmt.Sprintf("(%s (%s) %s)", q, strings.Join(decls, " "), body.S), SBool}, types.Typ[types.Bool]}, nil
 	case *ELet:
@@ -1078,6 +1098,12 @@ func (e *Engine) evalCall(env *Env, n *ECall) (TV, error) {
 		return tv, err
 	}
 	if tv, handled, err := e.listSpec(env, n.Fun, n.Args); handled {
+		return tv, err
+	}
+	if tv, handled, err := e.arraySpec(env, n.Fun, n.Args); handled {
+		return tv, err
+	}
+	if tv, handled, err := e.bufSpec(env, n.Fun, n.Args); handled {
 		return tv, err
 	}
 	if n.Fun == "as" && len(n.Args) == 2 {
